@@ -5,8 +5,10 @@ package main
 import (
 	"fmt"
 	"go/ast"
+	"go/token"
 	"go/types"
 	"os"
+	"sort"
 	"strings"
 
 	"golang.org/x/tools/go/packages"
@@ -18,7 +20,9 @@ func init() {
 		Doc: `nondeterministic-order taint: Go randomises map iteration. (a) A slice filled inside 'for … range <map>' (or returned by a function summarised as doing so:
 obiutils.Set.Members, maps.Keys, …) is map-ordered until it is passed to sort.*/slices.Sort*; a map-ordered slice must not reach an order-sensitive sink — the CSV column list
 (obiformats.CSVKeys), a strings.Join or a write to an output stream. (b) Inside a map-range loop, order-sensitive effects are forbidden: chaining edit workers (ChainWorkers),
-renaming attributes, writing to an output stream. One obligation per map-range loop / per call of a map-ordered producer in the record-wise command packages.`,
+renaming attributes, writing to an output stream. (c) A slice filled in a map-range loop and then sorted by a comparator that reads one field of its multi-field elements keeps the map order
+among ties. (d) A slice of records filled in a map-range loop (append or indexed store with a counter) is not returned unsorted. One obligation per map-range loop / per call of a map-ordered
+producer in the record-wise command packages.`,
 		Run: runND,
 	})
 }
@@ -65,12 +69,108 @@ func appendsInMapRange(info *types.Info, body ast.Node) map[types.Object]*ast.Ra
 					out[o] = rs
 				}
 			}
-			// indexed store result[i] = k with i++ also fills in map order
+			return true
+		})
+		// indexed store  result[i] = …  /  (*result)[i] = …  (with i++) also fills in map order
+		ast.Inspect(rs.Body, func(m ast.Node) bool {
+			as, ok := m.(*ast.AssignStmt)
+			if !ok || len(as.Lhs) != 1 || as.Tok != token.ASSIGN {
+				return true
+			}
+			ix, ok := ast.Unparen(as.Lhs[0]).(*ast.IndexExpr)
+			if !ok {
+				return true
+			}
+			if _, isConst := info.Types[ix.Index]; isConst && info.Types[ix.Index].Value != nil {
+				return true
+			}
+			if io := rootObj(info, ix.Index); io == nil || io == info.ObjectOf(identOf(rs.Key)) || io == info.ObjectOf(identOf(rs.Value)) {
+				return true // indexed by the key itself: position does not depend on the order
+			}
+			base := ast.Unparen(ix.X)
+			if st, ok := base.(*ast.StarExpr); ok {
+				base = ast.Unparen(st.X)
+			}
+			id, ok := base.(*ast.Ident)
+			if !ok {
+				return true
+			}
+			o := info.ObjectOf(id)
+			if o == nil || (o.Pos() >= rs.Pos() && o.Pos() < rs.End()) {
+				return true
+			}
+			t := o.Type().Underlying()
+			if pt, ok := t.(*types.Pointer); ok {
+				t = pt.Elem().Underlying()
+			}
+			if _, ok := t.(*types.Slice); ok {
+				out[o] = rs
+			}
 			return true
 		})
 		return true
 	})
 	return out
+}
+
+func identOf(e ast.Expr) *ast.Ident {
+	if e == nil {
+		return nil
+	}
+	id, _ := ast.Unparen(e).(*ast.Ident)
+	return id
+}
+
+// partialKeySort: the slice o, filled in map order, is sorted afterwards by a comparator literal that reads a single field
+// of its struct elements (which have several): elements equal on that field stay in map order.
+func partialKeySort(info *types.Info, body ast.Node, o types.Object, after ast.Node) (token.Pos, string) {
+	pos, field := token.NoPos, ""
+	ast.Inspect(body, func(n ast.Node) bool {
+		call, ok := n.(*ast.CallExpr)
+		if !ok || call.Pos() < after.End() || len(call.Args) < 2 || !sortFuncs[fullName(callee(info, call))] || rootObj(info, call.Args[0]) != o {
+			return true
+		}
+		lit, ok := ast.Unparen(call.Args[1]).(*ast.FuncLit)
+		if !ok {
+			return true
+		}
+		st := o.Type().Underlying()
+		if pt, ok := st.(*types.Pointer); ok {
+			st = pt.Elem().Underlying()
+		}
+		sl, ok := st.(*types.Slice)
+		if !ok {
+			return true
+		}
+		el := sl.Elem().Underlying()
+		if pt, ok := el.(*types.Pointer); ok {
+			el = pt.Elem().Underlying()
+		}
+		str, ok := el.(*types.Struct)
+		if !ok || str.NumFields() < 2 {
+			return true
+		}
+		fields := map[string]bool{}
+		other := false
+		ast.Inspect(lit.Body, func(m ast.Node) bool {
+			switch x := m.(type) {
+			case *ast.SelectorExpr:
+				if v, ok := info.ObjectOf(x.Sel).(*types.Var); ok && v.IsField() {
+					fields[x.Sel.Name] = true
+				}
+			case *ast.CallExpr:
+				other = true // a comparison helper: not judged
+			}
+			return true
+		})
+		if len(fields) == 1 && !other {
+			for f := range fields {
+				pos, field = call.Pos(), f
+			}
+		}
+		return true
+	})
+	return pos, field
 }
 
 func sortedAfter(info *types.Info, body ast.Node, o types.Object, after ast.Node) bool {
@@ -187,7 +287,8 @@ func ndSliceSink(info *types.Info, call *ast.CallExpr) string {
 
 var ndScope = []string{"pkg/obiformats", "pkg/obiseq", "pkg/obiiter", "pkg/obitools/obiannotate", "pkg/obitools/obigrep", "pkg/obitools/obiconvert",
 	"pkg/obitools/obicsv", "pkg/obitools/obipairing", "pkg/obitools/obimultiplex", "pkg/obitools/obipcr", "pkg/obitools/obicount", "pkg/obitools/obisummary",
-	"pkg/obitools/obidistribute", "pkg/obingslibrary", "pkg/obiapat"}
+	"pkg/obitools/obidistribute", "pkg/obingslibrary", "pkg/obiapat", "pkg/obitools/obidemerge", "pkg/obitools/obijoin", "pkg/obitools/obimicrosat", "pkg/obitools/obiscript", "pkg/obitools/obisplit",
+	"pkg/obitools/obitagpcr", "pkg/obitools/obicleandb"}
 
 func runND(c *Ctx, s *Sink) {
 	nd := &ndSummary{c: c}
@@ -233,6 +334,42 @@ func runND(c *Ctx, s *Sink) {
 			}
 			return true
 		})
+		// (c) map-ordered slices sorted on a partial key; (d) map-ordered record slices returned
+		nC := 0
+		filled := appendsInMapRange(info, fd.Body)
+		var objs []types.Object
+		for o := range filled {
+			objs = append(objs, o)
+		}
+		sort.Slice(objs, func(i, j int) bool { return objs[i].Pos() < objs[j].Pos() })
+		for _, o := range objs {
+			rs := filled[o]
+			if pos, field := partialKeySort(info, fd.Body, o, rs); pos.IsValid() {
+				nC++
+				s.Fail(nil, fmt.Sprintf("%s:maporder-ties#%d", fname, nC), pos,
+					fmt.Sprintf("%s is filled in map iteration order and then sorted on the single field %s of its elements: two elements equal on %s stay in the (randomised) order of the map — what is decided on the first or the last of them changes from run to run (obimultiplex: two markers whose primers match at the same position, ten identical reads assigned S-SSS--SSS)", o.Name(), field, field))
+			}
+			if strings.HasSuffix(o.Type().String(), "obiseq.BioSequenceSlice") && !sortedAfter(info, fd.Body, o, rs) {
+				ast.Inspect(fd.Body, func(n ast.Node) bool {
+					r, ok := n.(*ast.ReturnStmt)
+					if !ok || r.Pos() < rs.End() {
+						return true
+					}
+					for _, e := range r.Results {
+						e = ast.Unparen(e)
+						if st, ok := e.(*ast.StarExpr); ok {
+							e = st.X
+						}
+						if rootObj(info, e) == o {
+							nC++
+							s.Fail(nil, fmt.Sprintf("%s:maporder-records#%d", fname, nC), r.Pos(),
+								fmt.Sprintf("the records of %s are created in map iteration order and returned as they are: the output of the command lists them in an order that changes from run to run (obidemerge: 6 different outputs in 10 runs)", o.Name()))
+						}
+					}
+					return true
+				})
+			}
+		}
 		// (b) order-sensitive effects inside map-range loops
 		nB := 0
 		ast.Inspect(fd.Body, func(n ast.Node) bool {
